@@ -30,7 +30,7 @@ RULE = ('42 fixed formulas (as written; compared with the model only) and 2500*s
         'written differently (n, n.0, 2n/2, .5*2n; the side itself when not whole) - the comparison sits on its boundary. The host function and the '
         'cell and variable listeners evaluate further formulas on the same parser during the evaluation. Each tree is rendered '
         'with minimal parentheses (for the precedence the statement prescribes), fully parenthesised, and with white space '
-        '(blanks, tabs, newlines at token boundaries) and, half of the time, a redundant outer pair of parentheses. Ahead of '
+        '(a blank, two blanks, a tab, a newline or CR LF - drawn alike - before an operator, parenthesis or comma with probability 0.3, a blank after + - * / & , ( with 0.2; never inside <= >= <> nor between a name and its parenthesis) and, half of the time, a redundant outer pair of parentheses. Ahead of '
         'the seeded trees 400*scale (thorough 3000) decimal-literal cases (kind tree): a literal with integer part 0..29 and 1..3 '
         'decimals alone (half), or compared by = < > <> with a literal of the same integer part and two decimals or with the sum '
         'integer part + leading-dot literal of the same digits - the literal alone and literal against literal are judged '
